@@ -187,6 +187,10 @@ def run_case(case, ctx):
             ana = float(grad.dot(delta))
             # rounding of the two loss values dominates the error of the quotient
             tol = 1e-6 * max(1.0, abs(ana)) + 64 * np.finfo(float).eps * max(abs(lp), abs(lm)) / h
+            # ... and so does the rounding of Q x inside each residual: x is of the size of the total even when the residual
+            # (and the loss) is small, so each row contributes eps * |Q||x| / sigma to either loss value
+            tol += 64 * np.finfo(float).eps * sum((1 if Q_ is None else Q_.shape[0]) * (1.0 if Q_ is None else float(np.abs(Q_).sum(axis=1).max())) * total / s_
+                                                   for Q_, y_, s_, p_ in measure.plain_tuples(meas)) / h
             ctx.stat('central_difference_abs_dev', abs(num - ana))
             ctx.check(abs(num - ana) <= tol, 'central_difference', 'derivative',
                       'directional derivative: central difference %r, gradient.direction %r (tol %.2e)' % (num, ana, tol))
